@@ -103,29 +103,43 @@ func runC39(c *an.Ctx) {
 		eg := an.GuardForFuncs("executeBlock", funcObj(executeBlock))
 		v := an.Guarded(c.P, saveBlock, []*an.Guard{eg}, isSubmit, false)
 		c.Check(v.Holds && v.GuardSites == 1 && v.ActionSites == 1, "guard-execute|saveBlock", "saveBlock commits only a block whose execution succeeded", c.P.Rel(saveBlock.Pos()), v.Witness)
-		rootNE := an.FindValues(saveBlock, func(v ssa.Value) bool {
+		findIn := func(root *ssa.Function, match func(ssa.Value) bool) []ssa.Value {
+			var out []ssa.Value
+			for _, g := range an.InlineReach(root) {
+				out = append(out, an.FindValues(g, match)...)
+			}
+			return out
+		}
+		rootParam := saveBlock.Params[len(saveBlock.Params)-1].Name()
+		rootNE := findIn(saveBlock, func(v ssa.Value) bool {
 			b, ok := v.(*ssa.BinOp)
 			if !ok || b.Op != token.NEQ {
 				return false
 			}
 			_, isArr := b.X.Type().Underlying().(*types.Array)
-			return isArr && (an.AccessPath(b.Y) == "stateMerkleRoot" || an.AccessPath(b.X) == "stateMerkleRoot")
+			return isArr && (an.AccessPathIn(saveBlock, b.Y) == rootParam || an.AccessPathIn(saveBlock, b.X) == rootParam)
 		})
-		nonEmpty := an.FindValues(saveBlock, func(v ssa.Value) bool {
+		// the emptiness test on the block's transactions, in any of its forms: len(..) != 0, > 0, == 0
+		nonEmpty := findIn(saveBlock, func(v ssa.Value) bool {
 			b, ok := v.(*ssa.BinOp)
-			if !ok || b.Op != token.NEQ {
+			if !ok || (b.Op != token.NEQ && b.Op != token.EQL && b.Op != token.GTR) {
 				return false
 			}
 			k, isC := b.X.(*ssa.Call)
 			if !isC {
 				return false
 			}
+			z, isZ := b.Y.(*ssa.Const)
 			bi, isB := k.Call.Value.(*ssa.Builtin)
-			return isB && bi.Name() == "len"
+			return isB && bi.Name() == "len" && isZ && z.Value != nil && z.Value.String() == "0"
 		})
 		if len(rootNE) == 1 && len(nonEmpty) == 1 {
 			g := &an.Guard{Name: "state root mismatch", FailValue: an.ATrue, MatchValue: func(v ssa.Value) bool { return v == rootNE[0] }}
-			v := an.GuardedX(c.P, saveBlock, []*an.Guard{g}, map[ssa.Value]an.Abs{nonEmpty[0]: an.ATrue}, isSubmit, false)
+			isNonEmpty := an.ATrue
+			if nonEmpty[0].(*ssa.BinOp).Op == token.EQL {
+				isNonEmpty = an.AFalse
+			}
+			v := an.GuardedX(c.P, saveBlock, []*an.Guard{g}, map[ssa.Value]an.Abs{nonEmpty[0]: isNonEmpty}, isSubmit, false)
 			c.Check(v.Holds, "guard-stateroot|saveBlock", "a non-empty block is committed only if the computed state merkle root equals the one supplied by consensus/sync", c.P.Rel(saveBlock.Pos()), v.Witness)
 			// the compared root is the execution result's
 			ok := strings.HasSuffix(an.AccessPath(rootNE[0].(*ssa.BinOp).X), ".MerkleRoot") || strings.HasSuffix(an.AccessPath(rootNE[0].(*ssa.BinOp).Y), ".MerkleRoot")
@@ -148,7 +162,14 @@ func runC39(c *an.Ctx) {
 				effectObjs = append(effectObjs, o)
 			}
 		}
-		rootNE := an.FindValues(submitBlock, func(v ssa.Value) bool {
+		findInS := func(match func(ssa.Value) bool) []ssa.Value {
+			var out []ssa.Value
+			for _, g := range an.InlineReach(submitBlock) {
+				out = append(out, an.FindValues(g, match)...)
+			}
+			return out
+		}
+		rootNE := findInS(func(v ssa.Value) bool {
 			b, ok := v.(*ssa.BinOp)
 			if !ok || b.Op != token.NEQ {
 				return false
@@ -156,9 +177,9 @@ func runC39(c *an.Ctx) {
 			_, isArr := b.X.Type().Underlying().(*types.Array)
 			return isArr && (strings.HasSuffix(an.AccessPath(b.Y), ".BlockRoot") || strings.HasSuffix(an.AccessPath(b.X), ".BlockRoot"))
 		})
-		notGenesis := an.FindValues(submitBlock, func(v ssa.Value) bool {
+		notGenesis := findInS(func(v ssa.Value) bool {
 			b, ok := v.(*ssa.BinOp)
-			if !ok || b.Op != token.NEQ {
+			if !ok || (b.Op != token.NEQ && b.Op != token.EQL) {
 				return false
 			}
 			f := fieldOfLoad(b.X)
@@ -168,7 +189,12 @@ func runC39(c *an.Ctx) {
 		if len(rootNE) == 1 && len(notGenesis) >= 1 {
 			extra := map[ssa.Value]an.Abs{}
 			for _, ng := range notGenesis {
-				extra[ng] = an.ATrue
+				// "the block is not the genesis block": Height != 0 is true, Height == 0 is false
+				if ng.(*ssa.BinOp).Op == token.EQL {
+					extra[ng] = an.AFalse
+				} else {
+					extra[ng] = an.ATrue
+				}
 			}
 			g := &an.Guard{Name: "block root mismatch", FailValue: an.ATrue, MatchValue: func(v ssa.Value) bool { return v == rootNE[0] }}
 			v := an.GuardedX(c.P, submitBlock, []*an.Guard{g}, extra, func(in ssa.Instruction) bool { return isCallTo(in, effectObjs...) }, false)
@@ -248,17 +274,18 @@ func verifyHeaderRules(c *an.Ctx, setExplanation bool) {
 	sg := an.GuardForFuncs("VerifyMultiSignature", vms)
 	n, w := successReachable([]*an.Guard{sg}, false)
 	c.Check(n >= 2 && w == "", "guard-signature|verifyHeader|success", "a non-genesis header is accepted only after VerifyMultiSignature succeeded (both consensus modes)", c.P.Rel(fn.Pos()), w)
-	for _, k := range an.CallsTo(fn, vms) {
+	hdrName := fn.Params[1].Name()
+	for _, k := range an.CallsToReach(fn, vms) {
 		args := argsNoRecv(k.Common())
 		okHash := false
 		if sl, isS := args[0].(*ssa.Slice); isS {
-			if call, isC := an.Origin(&ssa.UnOp{Op: token.MUL, X: sl.X}).(*ssa.Call); isC && an.CalleeObj(&call.Call) == hashM && an.AccessPath(recvOf(&call.Call)) == "header" {
+			if call, isC := an.Origin(&ssa.UnOp{Op: token.MUL, X: sl.X}).(*ssa.Call); isC && an.CalleeObj(&call.Call) == hashM && an.AccessPathIn(fn, recvOf(&call.Call)) == hdrName {
 				okHash = true
 			}
 		}
 		c.Check(okHash, "same-subject|verifyHeader|signed-data", "the data verified is header.Hash() of the header being judged", c.P.Rel(k.Pos()), "data argument is not header.Hash()")
-		c.Check(an.AccessPath(args[1]) == "header.Bookkeepers" && an.AccessPath(args[3]) == "header.SigData", "same-subject|verifyHeader|keys-and-sigs",
-			"keys and signatures verified are the header's own Bookkeepers and SigData", c.P.Rel(k.Pos()), an.AccessPath(args[1])+" / "+an.AccessPath(args[3]))
+		c.Check(an.AccessPathIn(fn, args[1]) == hdrName+".Bookkeepers" && an.AccessPathIn(fn, args[3]) == hdrName+".SigData", "same-subject|verifyHeader|keys-and-sigs",
+			"keys and signatures verified are the header's own Bookkeepers and SigData", c.P.Rel(k.Pos()), an.AccessPathIn(fn, args[1])+" / "+an.AccessPathIn(fn, args[3]))
 	}
 	// (b) membership of every listed bookkeeper
 	var memberMap ssa.Value
@@ -288,12 +315,27 @@ func verifyHeaderRules(c *an.Ctx, setExplanation bool) {
 	if memberMap != nil {
 		src := an.Origin(memberMap)
 		ok := false
-		if e, isE := src.(*ssa.Extract); isE {
-			if l, isL := e.Tuple.(*ssa.Lookup); isL {
-				if f := fieldOfLoad(l.X); f != nil && f.Name() == "vbftPeerInfoMap" {
-					ok = true
+		// through the private helpers verifyHeader may be split into (the table handed on as a parameter, or
+		// fetched by a lookup helper): every definition must be a lookup in vbftPeerInfoMap
+		if ds := an.Deref(fn, memberMap); len(ds) > 0 {
+			all := true
+			for _, d := range ds {
+				d = an.Origin(d)
+				var l *ssa.Lookup
+				if e, isE := d.(*ssa.Extract); isE {
+					l, _ = e.Tuple.(*ssa.Lookup)
+				} else {
+					l, _ = d.(*ssa.Lookup)
+				}
+				if l == nil {
+					all = false
+					continue
+				}
+				if f := fieldOfLoad(l.X); f == nil || f.Name() != "vbftPeerInfoMap" {
+					all = false
 				}
 			}
+			ok = all
 		}
 		if !ok {
 			// one level of helper: a package function that looks the table up in vbftPeerInfoMap
@@ -333,7 +375,26 @@ func verifyHeaderRules(c *an.Ctx, setExplanation bool) {
 		if !isK || k.Value == nil || k.Value.String() != "1" {
 			return false
 		}
-		if f := fieldOfLoad(add.X); f == nil || f.Name() != "C" {
+		isC := false
+		for _, d := range an.Deref(fn, add.X) {
+			if cv, isCv := d.(*ssa.Convert); isCv {
+				d = cv.X
+			}
+			if f := fieldOfLoad(d); f != nil && f.Name() == "C" {
+				isC = true
+			} else {
+				isC = false
+				break
+			}
+		}
+		if cv, isCv := add.X.(*ssa.Convert); isCv && !isC {
+			for _, d := range an.Deref(fn, cv.X) {
+				if f := fieldOfLoad(d); f != nil && f.Name() == "C" {
+					isC = true
+				}
+			}
+		}
+		if !isC {
 			return false
 		}
 		x := b.X
@@ -350,14 +411,17 @@ func verifyHeaderRules(c *an.Ctx, setExplanation bool) {
 		usedSet = call.Call.Args[0]
 		return true
 	}}
-	vbftOnly := an.FindValues(fn, func(v ssa.Value) bool {
-		b, ok := v.(*ssa.BinOp)
-		if !ok || b.Op != token.EQL {
-			return false
-		}
-		k, isK := b.Y.(*ssa.Const)
-		return isK && k.Value != nil && k.Value.ExactString() == "\"vbft\""
-	})
+	var vbftOnly []ssa.Value
+	for _, g := range an.InlineReach(fn) {
+		vbftOnly = append(vbftOnly, an.FindValues(g, func(v ssa.Value) bool {
+			b, ok := v.(*ssa.BinOp)
+			if !ok || b.Op != token.EQL {
+				return false
+			}
+			k, isK := b.Y.(*ssa.Const)
+			return isK && k.Value != nil && k.Value.ExactString() == "\"vbft\""
+		})...)
+	}
 	c.Check(len(vbftOnly) == 1, "shape|verifyHeader|consensus-switch", "one consensus-type switch", c.P.Rel(fn.Pos()), fmt.Sprintf("%d", len(vbftOnly)))
 	for _, v := range vbftOnly {
 		extra[v] = an.ATrue
@@ -386,29 +450,32 @@ func verifyHeaderRules(c *an.Ctx, setExplanation bool) {
 	// VerifyMultiSignature, which checks exactly that many) must be at least C+1
 	{
 		var cp1 ssa.Value
-		for _, v := range an.FindValues(fn, func(v ssa.Value) bool {
-			b, ok := v.(*ssa.BinOp)
-			if !ok || b.Op != token.ADD {
-				return false
+		for _, g := range an.InlineReach(fn) {
+			for _, v := range an.FindValues(g, func(v ssa.Value) bool {
+				b, ok := v.(*ssa.BinOp)
+				if !ok || b.Op != token.ADD {
+					return false
+				}
+				k, isK := b.Y.(*ssa.Const)
+				f := fieldOfLoad(b.X)
+				return isK && k.Value != nil && k.Value.String() == "1" && f != nil && f.Name() == "C"
+			}) {
+				cp1 = v
 			}
-			k, isK := b.Y.(*ssa.Const)
-			f := fieldOfLoad(b.X)
-			return isK && k.Value != nil && k.Value.String() == "1" && f != nil && f.Name() == "C"
-		}) {
-			cp1 = v
 		}
 		proved, nCalls := false, 0
-		for _, k := range an.CallsTo(fn, vms) {
+		for _, k := range an.CallsToReach(fn, vms) {
 			// the vbft call: the one whose threshold is not derived from len(header.Bookkeepers) alone
 			m := k.Common().Args[2]
-			if !mentionsField(m, "vbftPeerInfo") && cp1 != nil && !an.ProveLeqAt(fn, k, cp1, m) && isDbftThreshold(m) {
+			host := k.Parent()
+			if !mentionsField(m, "vbftPeerInfo") && cp1 != nil && !an.ProveLeqAt(host, k, cp1, m) && isDbftThreshold(m) {
 				continue
 			}
 			if isDbftThreshold(m) {
 				continue
 			}
 			nCalls++
-			if cp1 != nil && an.ProveLeqAt(fn, k, cp1, m) {
+			if cp1 != nil && an.ProveLeqAt(host, k, cp1, m) {
 				proved = true
 			}
 		}
